@@ -72,9 +72,9 @@ func (c *Ctx) helpers() map[*types.Func]*helperInfo {
 				if h == nil {
 					return true
 				}
-				if callees[id] {
-					h.callers[fi.Name] = true
-				} else {
+				// a helper handed on as a function value is like a closure of the function that hands it on
+				h.callers[fi.Name] = true
+				if !callees[id] {
 					h.escapes = true
 				}
 				return true
@@ -97,7 +97,7 @@ func (c *Ctx) attributed(fi *FuncInfo) []string {
 		}
 		seen[f.Name] = true
 		h := c.helpers()[f.Obj]
-		if f.Obj == nil || h == nil || h.escapes || len(h.callers) == 0 || depth > 4 {
+		if f.Obj == nil || h == nil || len(h.callers) == 0 || depth > 4 {
 			out = append(out, f.Name)
 			return
 		}
